@@ -5,6 +5,8 @@
 #include "nmtools/array/view/alias.hpp"
 #include "nmtools/array/view/ufuncs/multiply.hpp"
 #include "nmtools/array/view/sum.hpp"
+#include "nmtools/utility/shape.hpp"
+#include "nmtools/utility/at.hpp"
 
 namespace nmtools::view
 {
@@ -19,13 +21,32 @@ namespace nmtools::view
         auto axis = meta::ct_v<-1>;
         auto initial = None;
 
-        return view::sum(
+        auto result = view::sum(
             view::multiply(a_lhs,a_rhs)
             , axis
             , dtype
             , initial
             , keepdims
         );
+        using result_t = decltype(result);
+        // only the leading axes are broadcast: the contracted (last) axes must have the same extent;
+        // for shapes that are only known at run time so is their compatibility: Nothing
+        auto lhs_shape = shape<true>(lhs);
+        auto rhs_shape = shape<true>(rhs);
+        if constexpr (meta::is_maybe_v<result_t>
+            && meta::is_index_array_v<decltype(lhs_shape)>
+            && meta::is_index_array_v<decltype(rhs_shape)>
+        ) {
+            const auto& l_shape = lhs_shape;
+            const auto& r_shape = rhs_shape;
+            auto lhs_dim = (nm_size_t)len(l_shape);
+            auto rhs_dim = (nm_size_t)len(r_shape);
+            auto aligned = (lhs_dim == 0) || (rhs_dim == 0)
+                || ((nm_size_t)at(l_shape,lhs_dim-1) == (nm_size_t)at(r_shape,rhs_dim-1));
+            return (aligned ? result : result_t{meta::Nothing});
+        } else {
+            return result;
+        }
     } // vecdot
 } // nmtools::view
 
